@@ -13,6 +13,7 @@ import (
 	"runtime/debug"
 	"strconv"
 	"strings"
+	"time"
 
 	"github.com/bbva/qed/crypto/hashing"
 )
@@ -315,6 +316,39 @@ func Try(f func()) (panicked bool) {
 }
 
 func PanicMsg() string { return lastPanic }
+
+var pending []chan struct{}
+
+// Concurrently runs f as another thread of control started at this point. It
+// returns true if f completed, false if f is blocked (waiting for a lock held
+// by the caller); a blocked f finishes on its own later — Join waits for it.
+func Concurrently(f func()) bool {
+	done := make(chan struct{})
+	var pv interface{}
+	go func() {
+		defer close(done)
+		defer func() { pv = recover() }()
+		f()
+	}()
+	select {
+	case <-done:
+		if pv != nil {
+			panic(pv)
+		}
+		return true
+	case <-time.After(300 * time.Millisecond):
+		pending = append(pending, done)
+		return false
+	}
+}
+
+// Join waits for the activities that Concurrently left blocked.
+func Join() {
+	for _, d := range pending {
+		<-d
+	}
+	pending = nil
+}
 
 // NoPanic runs f; a panic is a violation labelled label@file:line of the panic site.
 func NoPanic(f func(), label string) (ok bool) {
